@@ -154,6 +154,23 @@ def materialise(spec, slots):
         v = spec.get("v")
         if t == "dict":
             return {materialise(k, slots): materialise(x, slots) for k, x in v}
+        if t in ("ddict", "odict", "mproxy", "chainmap", "userdict"):
+            import collections
+            import types as _types
+
+            items = [(materialise(k, slots), materialise(x, slots)) for k, x in v]
+            if t == "ddict":
+                fac = {"list": list, "str": str, "int": int}[spec.get("f", "list")]
+                d = collections.defaultdict(fac)
+                d.update(items)
+                return d
+            if t == "odict":
+                return collections.OrderedDict(items)
+            if t == "mproxy":
+                return _types.MappingProxyType(dict(items))
+            if t == "chainmap":
+                return collections.ChainMap(dict(items[:1]), dict(items[1:]))
+            return collections.UserDict(dict(items))
         if t == "md":
             return multidict.MultiDict([(materialise(k, slots), materialise(x, slots)) for k, x in v])
         if t == "cimd":
@@ -203,7 +220,12 @@ def freeze(x):
     if isinstance(x, (multidict.MultiDict, multidict.MultiDictProxy, multidict.CIMultiDict)):
         return ("md", type(x).__name__, tuple((type(k).__name__, str(k), freeze(v)) for k, v in x.items()))
     if isinstance(x, dict):
-        return ("dict", tuple((freeze(k), freeze(v)) for k, v in x.items()))
+        return ("dict", type(x).__name__, tuple((freeze(k), freeze(v)) for k, v in x.items()))
+    if type(x).__name__ in ("mappingproxy", "ChainMap", "UserDict"):
+        try:
+            return ("mapping", type(x).__name__, tuple((freeze(k), freeze(x[k])) for k in list(x)))
+        except Exception:  # noqa
+            return ("mapping", type(x).__name__)
     if isinstance(x, (list, tuple)) and type(x) is not SplitResult:
         return (type(x).__name__, tuple(freeze(v) for v in x))
     if type(x) is SplitResult:
@@ -494,8 +516,10 @@ def apply_op(op, slots):
             if name not in URLISH_OPS:
                 res = None
     except BaseException as e:  # noqa
-        if isinstance(e, (KeyboardInterrupt, SystemExit, Skip)):
+        if isinstance(e, (KeyboardInterrupt, SystemExit)):
             raise
+        if isinstance(e, Skip):
+            return ["skip"], None, None
         out = exc_outcome(e)
         res = None
     after = [freeze(a) for a in args] + [freeze(v) for v in kwargs.values()]
@@ -510,7 +534,8 @@ def apply_op(op, slots):
 URLISH_OPS = frozenset(
     ["new", "build", "with_scheme", "with_user", "with_password", "with_host", "with_port", "with_path", "with_query",
      "extend_query", "update_query", "without_query_params", "with_fragment", "with_name", "with_suffix", "truediv",
-     "mod", "joinpath", "join", "origin", "relative", "parent", "pickle", "copy", "deepcopy", "reduce", "legacy_setstate"]
+     "mod", "joinpath", "join", "origin", "relative", "parent", "pickle", "copy", "deepcopy", "reduce", "legacy_setstate",
+     "deepcopy_in", "pickle_in", "copy_in"]
 )
 STATE_OPS = frozenset(["cache_clear", "cache_configure", "cache_info", "lru_resize", "lru_clear", "gc"])
 
@@ -597,6 +622,16 @@ def _dispatch(name, op, slots, args, kwargs):
         if c == ">=":
             return u >= o
         raise ValueError(c)
+    if name == "lookup":
+        o = _operand(slots, op.get("other"))
+        how = args[0]
+        if how == "dict":
+            return {o: "hit"}.get(u, "miss")
+        if how == "set":
+            return u in {o}
+        if how == "count":
+            return [o, u].count(u)
+        return [o, u].index(u)
     if name == "truediv":
         return u / args[0]
     if name == "rtruediv":
@@ -620,6 +655,27 @@ def _dispatch(name, op, slots, args, kwargs):
         if len(r) > 2 and r[2] is not None:
             obj.__setstate__(r[2])
         return obj
+    if name in ("deepcopy_in", "pickle_in", "copy_in"):
+        others, pos, shape = args[0], args[1], args[2]
+        seq = list(others[:pos]) + [u] + list(others[pos:])
+        if shape == "tuple":
+            box = tuple(seq)
+        elif shape == "dict":
+            box = {i: x for i, x in enumerate(seq)}
+        elif shape == "dictkeys":
+            box = [{x: i} for i, x in enumerate(seq)]
+        else:
+            box = seq
+        if name == "deepcopy_in":
+            out = _copy.deepcopy(box)
+        elif name == "copy_in":
+            out = _copy.deepcopy(_copy.copy(box))
+        else:
+            out = pickle.loads(pickle.dumps(box, protocol=2 + pos % 4))
+        got = out[pos]
+        if shape == "dictkeys":
+            got = next(iter(got))
+        return got
     if name == "legacy_setstate":
         # what unpickling a pickle written by an old yarl (default-style state) does
         obj = URL.__new__(URL)
@@ -710,6 +766,11 @@ class Atoms:
         sp = SPECIAL_URLS + (BRACKET_ODDITIES if brackets else [])
         self.specials = subset(rng, sp, lo, hi + 4)
         self.urls = [self.compose(rng) for _ in range(rng.randint(lo, hi))]
+        if rng.random() < 0.5:
+            # both spellings of one equal value: 'scheme://authority' and 'scheme://authority/'
+            sch = rng.choice(self.schemes)
+            base = (sch + ":" if sch else "") + "//" + self.authority(rng)
+            self.urls += [base, base + "/"]
 
     def host(self, rng):
         if rng.random() < self.hostile:
@@ -801,6 +862,13 @@ class Atoms:
                 if k not in ks:
                     ks.append(k)
                     items.append([k, self.qvalue(rng)])
+            if rng.random() < 0.25:
+                # other Mapping types: a mapping that auto-creates entries, ordered/read-only/chained/user mappings
+                kind = rng.choice(["ddict", "ddict", "odict", "mproxy", "chainmap", "userdict"])
+                spec = {"$": kind, "v": items}
+                if kind == "ddict":
+                    spec["f"] = rng.choice(["list", "str", "int"])
+                return spec
             return {"$": "dict", "v": items}
         if r < 0.6:
             return {"$": "pairs", "as": rng.choice(["list", "tuple"]), "v": [[self.qkey(rng), self.qvalue(rng, False)] for _ in range(n)]}
@@ -873,6 +941,14 @@ def gen_constructor(rng, at, live):
 
 def gen_derivation(rng, at, live):
     on = rng.choice(live)
+    if rng.random() < 0.05:
+        # another spelling of an equal value: '' vs '/' behind an authority, default port written out
+        k = rng.random()
+        if k < 0.6:
+            return {"op": "with_path", "on": on, "args": [rng.choice(["", "/"])], "kwargs": {"keep_query": True, "keep_fragment": True}}
+        if k < 0.8:
+            return {"op": "origin", "on": on, "args": []}
+        return {"op": "with_port", "on": on, "args": [rng.choice([80, 443, None])]}
     r = rng.random()
     kq = {}
     if rng.random() < 0.3:
@@ -934,9 +1010,41 @@ def gen_derivation(rng, at, live):
     return {"op": "parent", "on": on, "args": []}
 
 
-def gen_restart(rng, live):
+def equal_partners(slots, i):
+    """Other live URL objects that compare equal to slots[i] (e.g. 'http://h' and 'http://h/':
+    equal by ==/hash, yet different str(), state and ordering)."""
+    out = []
+    if slots is None or i is None or i >= len(slots) or not is_url(slots[i]):
+        return out
+    a = slots[i]
+    for j, b in enumerate(slots):
+        if j != i and is_url(b) and b is not a:
+            try:
+                if b == a:
+                    out.append(j)
+            except Exception:  # noqa
+                pass
+    return out
+
+
+def _pick_other(rng, live, slots, on, p_equal=0.5):
+    if slots is not None and rng.random() < p_equal:
+        eq = equal_partners(slots, on)
+        if eq:
+            return rng.choice(eq)
+    return rng.choice(live)
+
+
+def gen_restart(rng, live, slots=None):
     on = rng.choice(live)
     r = rng.random()
+    if slots is not None and rng.random() < 0.15:
+        # the URL travels inside a container together with other URLs (shared pickle/deepcopy memo)
+        n = rng.randint(1, 3)
+        others = [_pick_other(rng, live, slots, on, 0.7) for _ in range(n)]
+        pos = rng.randint(0, n)
+        return {"op": rng.choice(["deepcopy_in", "deepcopy_in", "pickle_in", "copy_in"]), "on": on,
+                "args": [{"$": "list", "v": [{"$": "url", "v": j} for j in others]}, pos, rng.choice(["list", "tuple", "dict", "dictkeys"])]}
     if r < 0.6:
         return {"op": "pickle", "on": on, "args": [rng.choice(PICKLE_PROTOS)]}
     if r < 0.75:
@@ -948,15 +1056,18 @@ def gen_restart(rng, live):
     return {"op": "legacy_setstate", "on": on, "args": []}
 
 
-def gen_read(rng, live):
+def gen_read(rng, live, slots=None):
     on = rng.choice(live)
     r = rng.random()
-    if r < 0.72:
+    if r < 0.68:
         return {"op": "read", "on": on, "args": [rng.choice(ALL_READS)]}
     if r < 0.86:
         if rng.random() < 0.1:
             return {"op": "cmp", "on": on, "args": [rng.choice(CMP_OPS), rng.choice(["http://h/", 5, None])]}
-        return {"op": "cmp", "on": on, "other": rng.choice(live), "args": [rng.choice(CMP_OPS)]}
+        other = _pick_other(rng, live, slots, on)
+        if rng.random() < 0.25:
+            return {"op": "lookup", "on": on, "other": other, "args": [rng.choice(["dict", "set", "count", "index"])]}
+        return {"op": "cmp", "on": on, "other": other, "args": [rng.choice(CMP_OPS)]}
     if r < 0.9:
         return {"op": "query_mutate", "on": on, "args": []}
     if r < 0.92:
@@ -1023,7 +1134,7 @@ def _leaves(spec, path, acc):
         elif spec.get("$") in ("url", "qproxy", "text", "ref", "refproxy"):
             return
         elif "$" in spec:
-            if spec["$"] in ("dict", "md", "cimd", "mdp", "pairs", "list", "tuple"):
+            if spec["$"] in ("dict", "md", "cimd", "mdp", "pairs", "list", "tuple", "ddict", "odict", "mproxy", "chainmap", "userdict"):
                 _leaves(spec.get("v"), path + ["v"], acc)
         else:
             for k, v in spec.items():
@@ -1042,7 +1153,7 @@ def _set_path(root, path, value):
     cur[path[-1]] = value
 
 
-def gen_variant(rng, ops, candidates):
+def gen_variant(rng, ops, candidates, slots=None):
     """A near-duplicate of an earlier operation: one argument replaced by a value that is
     ==/hash-equal but of another type (1 / True / 1.0, str / str subclass), or one flag
     toggled, or the same text routed through a sibling parameter.  This is what makes the
@@ -1051,10 +1162,23 @@ def gen_variant(rng, ops, candidates):
 
     if not candidates:
         return None
+    p_swap = 0.3
+    if slots is not None and rng.random() < 0.6:
+        rich = [i for i in candidates if any(equal_partners(slots, ops[i].get(k)) for k in ("on", "other") if ops[i].get(k) is not None)]
+        if rich:
+            candidates = rich
+            p_swap = 0.8  # same operation, equal-but-differently-spelled operand
     src = ops[rng.choice(candidates)]
     op = _c.deepcopy({k: v for k, v in src.items() if k in ("op", "on", "other", "args", "kwargs")})
     op.setdefault("args", [])
     r = rng.random()
+    if slots is not None and rng.random() < p_swap:
+        for key in ("other", "on"):
+            if op.get(key) is not None:
+                eq = equal_partners(slots, op[key])
+                if eq:
+                    op[key] = rng.choice(eq)
+                    return op
     kw = op.get("kwargs")
     if kw is not None and r < 0.25:
         flags = [k for k in ("encoded", "keep_query", "keep_fragment") if True]
